@@ -4,7 +4,7 @@ import AiutiVerif.Gather.Model
 namespace AiutiVerif.Gather
 open AiutiVerif.Wire
 
-/-- `gather only=2 sub=1,0;1,1 aws=30:3;10:-;0:2` (class `-` = returns a value) -/
+/-- `gather only=2 sub=1,0;1,1 aws=30:3;10:-;0:2;5:r3` (class `-` = returns a value, `r3` = returns an object of class 3) -/
 def drive (fs : List (String × String)) : String :=
   match getNat fs "only", getRows fs "sub", get fs "aws" with
   | some only, some subT, some awsS =>
@@ -13,7 +13,10 @@ def drive (fs : List (String × String)) : String :=
         (awsS.splitOn ";").mapM fun e =>
           match e.splitOn ":" with
           | [d, c] => match d.toNat? with
-            | some d => if c == "-" then some ⟨d, none⟩ else c.toNat?.map fun c => ⟨d, some c⟩
+            | some d =>
+              if c == "-" then some ⟨d, none, none⟩
+              else if c.startsWith "r" then (c.drop 1).toNat?.map fun c => ⟨d, none, some c⟩   -- returns an exception object
+              else c.toNat?.map fun c => ⟨d, some c, none⟩
             | none => none
           | _ => none
     match aws? with
